@@ -23,9 +23,9 @@ ROWS = {
  "elevate_thorough": dict(acts=S("CvDegreeIncrease"), props=["ElevatePreserves"], pts='"gen", "unit"', wts='"none", "gen", "gen2"', degs="DegsT", maxnpts=6),
  "split_quick": dict(acts=S("CvSplit"), props=["SplitRestricts"]),
  "split_thorough": dict(acts=S("CvSplit"), props=["SplitRestricts"], pts='"gen", "unit"', wts='"none", "gen", "gen2"', degs="DegsT", maxnpts=6),
- "remove_quick": dict(acts=S("CvKnotInsert", "CvKnotRemove"), scenario="history", prep=1, depth=2, maxnpts=4, nodesize=2, props=["RemoveExactOrRefused"], wts='"none", "gen", "const"'),
+ "remove_quick": dict(acts=S("CvKnotInsert", "CvKnotRemove"), scenario="history", prep=1, depth=2, maxnpts=4, nodesize=2, props=["RemoveExactOrRefused"], wts='"none", "gen", "const"', pts='"gen", "homlin"'),
  "remove_thorough": dict(acts=S("CvKnotInsert", "CvKnotRemove"), scenario="history", prep=1, depth=2, maxnpts=5, degs="DegsT", nodesize=2, props=["RemoveExactOrRefused"], wts='"none", "gen", "gen2"'),
- "decrease_quick": dict(acts=S("CvDegreeIncrease", "CvDegreeDecrease"), scenario="history", prep=1, depth=2, maxnpts=4, props=["ReduceExactOrRefused"], wts='"none", "gen", "const"'),
+ "decrease_quick": dict(acts=S("CvDegreeIncrease", "CvDegreeDecrease"), scenario="history", prep=1, depth=2, maxnpts=4, props=["ReduceExactOrRefused"], wts='"none", "gen", "const"', pts='"gen", "homlin"'),
  "decrease_thorough": dict(acts=S("CvDegreeIncrease", "CvDegreeDecrease"), scenario="history", prep=1, depth=2, maxnpts=5, degs="DegsT", props=["ReduceExactOrRefused"], wts='"none", "gen", "gen2"'),
  "join_quick": dict(acts=S("CvSplitTake", "CvJoin"), depth=2, maxnpts=4, omax=3, props=["JoinRestores"], wts='"none"'),
  "join_thorough": dict(acts=S("CvSplitTake", "CvJoin"), depth=2, maxnpts=5, omax=4, degs="DegsT", props=["JoinRestores"], wts='"none", "gen"'),
@@ -33,8 +33,8 @@ ROWS = {
  "arith_thorough": dict(acts=S("CvArith", "CvScalar"), maxnpts=5, omax=4, pts='"gen", "pos"', wts='"none", "gen", "gen2"'),
  "eq_quick": dict(acts=S("CvEq"), maxnpts=4, pts='"gen", "flat"'),
  "eq_thorough": dict(acts=S("CvEq"), maxnpts=5, degs="DegsT", wts='"none", "gen", "gen2", "const"', pts='"gen", "flat"'),
- "clean_quick": dict(acts=S("CvKnotInsert", "CvDegreeIncrease", "CvClean"), scenario="history", prep=1, depth=3, maxnpts=4, nodesize=1, props=["CleanProps"], wts='"none"'),
- "clean_thorough": dict(acts=S("CvKnotInsert", "CvDegreeIncrease", "CvClean"), scenario="history", prep=2, depth=4, maxnpts=4, nodesize=1, props=["CleanProps"], wts='"none"'),
+ "clean_quick": dict(acts=S("CvKnotInsert", "CvDegreeIncrease", "CvClean"), scenario="history", prep=1, depth=3, maxnpts=4, nodesize=1, props=["CleanProps"], wts='"none", "gen"', pts='"gen", "homlin"'),
+ "clean_thorough": dict(acts=S("CvKnotInsert", "CvDegreeIncrease", "CvClean"), scenario="history", prep=2, depth=4, maxnpts=4, nodesize=1, props=["CleanProps"], wts='"none", "gen", "const"', pts='"gen", "homlin"'),
  "misc_quick": dict(acts=S("CvCopy", "CvFraction"), maxnpts=4),
  "deriv_quick": dict(acts=S("CvDerivate"), props=["DerivFormulaAgrees"]),
  "deriv_thorough": dict(acts=S("CvDerivate"), props=["DerivFormulaAgrees"], degs="Degs4", maxnpts=7, wts='"none", "gen", "gen2"'),
